@@ -764,7 +764,7 @@ pub fn c18(quick: bool) -> PropRun {
     // one or three valid connection requests from an address that never answers, against servers stepping slowly (the resend timers are
     // then handled late) and servers configured with long active time-outs, watched for seven minutes
     {
-        let name = "C18.unanswered-syn|timeouts20s.3min.1h|cadence0.5s.5s.30s|syns1.3".to_string();
+        let name = "C18.unanswered-syn|timeouts20s.3min.1h|cadence0.5s.5s.30s|syns1.3|stray-frames.none.data.sync.ack.disconnect.every19s.all-every3s".to_string();
         let run = move |ch: &mut Chooser| -> ExecResult {
             let timeout = [20_000u64, 180_000, 3_600_000][ch.free(3)];
             let cad = [500u64, 5_000, 30_000][ch.free(3)];
@@ -775,6 +775,15 @@ pub fn c18(quick: bool) -> PropRun {
             let rounds = (420_000 / cad) as usize + 4;
             let mut script: Vec<EwOp> = Vec::new();
             for k in 0..nsyn { script.push(at(1 + k * ((30_000 / cad) as usize).max(1), Act::Raw(0, syn.clone()))); }
+            // the address that never answers the SYN-ACK keeps sending cheap stray frames (none; one kind every 19 s; all kinds in turn every 3 s):
+            // nothing it sends without the nonce may prolong or restart the server's retransmissions
+            let stray = ch.free(6);
+            if stray > 0 {
+                let kinds = ["data", "sync", "ack", "disconnect", "ACK wrong nonce"];
+                let every = if stray == 5 { 3_000u64 } else { 19_000 };
+                let mut t = 5_000u64; let mut j = 0usize;
+                while t < 400_000 { let name = if stray == 5 { kinds[j % kinds.len()] } else { kinds[stray - 1] }; let b = alpha.iter().find(|a| a.0 == name).map(|a| a.1.clone()).unwrap(); script.push(at(1 + (t / cad) as usize, Act::Raw(0, b))); t += every; j += 1; }
+            }
             let mut env = EwEnv::basic(0, rounds);
             env.fates = DF_NONE; env.deltas = leak_deltas(cad, &[]); env.fair_delta = cad; env.stop_when_done = false;
             let mut c0 = Chooser::new(vec![], vec![]);
@@ -952,6 +961,31 @@ pub fn c09_parts(quick: bool) -> (Vec<EwSpec>, Vec<Scenario>) {
         let mut env = EwEnv::basic(if quick { 6 } else { 9 }, 140);
         env.dev_start = 0; env.fates = DF_BASIC; env.deltas = &[100, 2000]; env.fair_delta = 500;
         scs.push(sc(&format!("C09.right-after-connect.{}", sname), &cfg, script, env, d, EO_C09 | EO_C08));
+    }
+    // the same with the network going dark (one or both directions, for good) at any round from the very first datagram on: a single
+    // deviation then loses the handshake ACK and everything after it while the server's SYN-ACK repeats still arrive
+    for (sname, act) in [("client-now", Act::CDisconnectNow(0)), ("client", Act::CDisconnect(0)), ("client-empty", Act::CDisconnect(0))] {
+        let cfg = EwCfg::new(1);
+        let mut script = vec![at(0, Act::Connect(0))];
+        if sname != "client-empty" { script.push(after_c(0, 1, Act::CSend(0, 0, Reliable, 100))); }
+        script.push(after_c(0, 1, act));
+        let mut env = EwEnv::basic(8, 140);
+        env.dev_start = 0; env.fates = DF_NONE; env.deltas = &[100]; env.fair_delta = 500; env.blackouts = &[1, 2, 3];
+        scs.push(sc(&format!("C09.right-after-connect.blackout.{}", sname), &cfg, script, env, 1, EO_C09 | EO_C08));
+    }
+    // disconnect() with Reliable data queued, the path towards the peer goes dark (the other direction stays up, so keep-alives hold off
+    // the active time-out), and 3 s later the application gives up waiting and calls disconnect_now()
+    for who in 0..2 {
+        for wait in [5usize, 30] {
+            let cfg = EwCfg::new(1);
+            let mut script = vec![at(0, Act::Connect(0)), after_c(0, 1, Act::CSend(0, 5, Reliable, 10)), after_s(0, 1, Act::SSend(0, 5, Reliable, 11))];
+            script.push(if who == 0 { after_c(0, 6, Act::CSend(0, 0, Reliable, 3000)) } else { after_s(0, 6, Act::SSend(0, 0, Reliable, 3000)) });
+            script.push(if who == 0 { after_c(0, 6, Act::CDisconnect(0)) } else { after_s(0, 6, Act::SDisconnect(0)) });
+            script.push(if who == 0 { after_c(0, 6 + wait, Act::CDisconnectNow(0)) } else { after_s(0, 6 + wait, Act::SDisconnectNow(0)) });
+            let mut env = EwEnv::basic(6, 160);
+            env.dev_start = 4; env.fates = DF_NONE; env.deltas = &[100]; env.fair_delta = 100; env.blackouts = &[1, 2, 3];
+            scs.push(sc(&format!("C09.flushing-then-now.{}.{}", if who == 0 { "client" } else { "server" }, wait), &cfg, script, env, 1, EO_C09 | EO_C08));
+        }
     }
     // a warm connection (20 kB transferred, constant 100 ms cadence): the last packet's three frames leave in one flush
     for who in 0..2 {
